@@ -567,7 +567,11 @@ func (w *World) judge(cancelled bool, cancelT time.Duration, loopDone bool, loop
 			s.Probe("converged")
 		}
 	}
-	if cancelled {
+	if cancelled && !loopDone && s.Now() <= cancelT+time.Second {
+		// the run used up its step budget right at the cancellation: the task
+		// has not had a second of virtual time to notice
+		s.Probe("terminate-not-judged")
+	} else if cancelled {
 		if !loopDone {
 			w.fail("terminate", "the server's context was cancelled at t=%v but the backup task had not terminated by t=%v", cancelT, s.Now())
 		} else if loopDoneT > cancelT+time.Second {
